@@ -23,6 +23,7 @@ import ast
 import re
 from typing import Any, Dict, List, Optional, Set, Tuple
 
+from engine.srcmatch import U
 from engine.bits import BV, TOP, Codec, compose, run_codec
 from engine.fold import Folder
 from engine.model import AnalysisError, Program, dotted, walk_no_nested
@@ -132,19 +133,19 @@ def run(ctx: Any, prog: Program) -> None:
             if not wattrs and isinstance(wa, ast.Constant):
                 ctx.check('C15.F1', rn == 'header_size', vtf, wa, f'slot {i}: a constant is packed where read() takes `{rn}`', func='VTF.save', text=f'header slot {i} placeholder')
                 continue
-            ctx.check('C15.F1', bool(wattrs & rattrs), vtf, wa or hw[0], f'header slot {i}: read() stores it into {sorted(rattrs)} (via `{rn}`) but save() packs `{ast.unparse(wa)[:50]}`', func='VTF.save',
+            ctx.check('C15.F1', bool(wattrs & rattrs), vtf, wa or hw[0], f'header slot {i}: read() stores it into {sorted(rattrs)} (via `{rn}`) but save() packs `{U(wa)[:50]}`', func='VTF.save',
                       text=f'header slot {i} {rn}')
     # resource count = entries written
     rc = [n for n in walk_no_nested(sv) if isinstance(n, ast.Assign) and dotted(n.targets[0]) == 'res_count']
     if len(rc) != 1:
         raise AnalysisError('save(): res_count not found')
-    base = ast.unparse(rc[0].value)
+    base = U(rc[0].value)
     m = re.fullmatch(r'len\(self\.resources\) \+ (\d+)', base)
     if not m:
         raise AnalysisError(f'save(): res_count idiom `{base}` not recognised')
     fixed = int(m.group(1))
     incs = [n for n in walk_no_nested(sv) if isinstance(n, ast.If) and any(isinstance(s, ast.AugAssign) and dotted(s.target) == 'res_count' for s in n.body)]
-    inc_guards = sorted(ast.unparse(n.test) for n in incs)
+    inc_guards = sorted(U(n.test) for n in incs)
     # entries: struct.pack('<3sB..') calls outside the resources loop
     ent_uncond, ent_guards = 0, []
     parents = vtf.parents
@@ -157,8 +158,8 @@ def run(ctx: Any, prog: Program) -> None:
                 q = parents.get(p)
                 if isinstance(q, ast.For):
                     in_loop = True
-                if isinstance(q, ast.If) and 'version_minor' not in ast.unparse(q.test) and p in q.body:
-                    guard = ast.unparse(q.test)
+                if isinstance(q, ast.If) and 'version_minor' not in U(q.test) and p in q.body:
+                    guard = U(q.test)
                 p = q
             if in_loop:
                 continue
@@ -171,11 +172,11 @@ def run(ctx: Any, prog: Program) -> None:
     # ---- F2 --------------------------------------------------------------------------------------------------
     def nest(fn: ast.AST, obj: str) -> Tuple[List[str], str, ast.AST]:
         for n in walk_no_nested(fn):
-            if isinstance(n, ast.For) and 'reversed(range(' in ast.unparse(n.iter):
+            if isinstance(n, ast.For) and 'reversed(range(' in U(n.iter):
                 def iters(e: ast.AST) -> List[str]:
                     if isinstance(e, ast.Call) and dotted(e.func) in ('itertools.product', 'product'):
-                        return [ast.unparse(a) for a in e.args]        # product(a, b) is the nest `for .. in a: for .. in b:`
-                    return [ast.unparse(e)]
+                        return [U(a) for a in e.args]        # product(a, b) is the nest `for .. in a: for .. in b:`
+                    return [U(e)]
                 sig = iters(n.iter)
                 cur = n
                 while True:
@@ -184,7 +185,7 @@ def run(ctx: Any, prog: Program) -> None:
                         break
                     cur = inner[0]
                     sig += iters(cur.iter)
-                key = [ast.unparse(s.slice) for s in ast.walk(cur) if isinstance(s, ast.Subscript) and dotted(s.value) == f'{obj}._frames']
+                key = [U(s.slice) for s in ast.walk(cur) if isinstance(s, ast.Subscript) and dotted(s.value) == f'{obj}._frames']
                 sig = [s.replace(obj + '.', '') for s in sig]
                 return sig, (key[0] if key else ''), n
         raise AnalysisError('frame loop nest not found')
@@ -192,29 +193,29 @@ def run(ctx: Any, prog: Program) -> None:
     wsig, wkey, wnode = nest(sv, 'self')
     ctx.check('C15.F2', rsig == wsig, vtf, wnode, f'read() iterates frames as {rsig} but save() as {wsig}', func='VTF.save', text='frame loop nest')
     ctx.check('C15.F2', rkey == wkey and rkey != '', vtf, wnode, f'_frames key order: read() `{rkey}` vs save() `{wkey}`', func='VTF.save', text='frame key order')
-    ok = any(isinstance(n, ast.Assign) and ast.unparse(n) == 'depth_seq = vtf._depth_range()' for n in walk_no_nested(rd)) and any(isinstance(n, ast.Assign) and ast.unparse(n).startswith('depth_seq = self._depth_range(') for n in walk_no_nested(sv))
+    ok = any(isinstance(n, ast.Assign) and U(n) == 'depth_seq = vtf._depth_range()' for n in walk_no_nested(rd)) and any(isinstance(n, ast.Assign) and U(n).startswith('depth_seq = self._depth_range(') for n in walk_no_nested(sv))
     ctx.shape('C15.F2', ok, vtf, sv, 'both sides must take the depth/side sequence from _depth_range()', func='VTF.save', text='depth sequence source')
     # mip sizes on read
-    rsrc = ast.unparse(rd)
+    rsrc = U(rd)
     ctx.shape('C15.F2', 'mip_width = max(width >> data_mipmap, 1)' in rsrc and 'mip_height = max(height >> data_mipmap, 1)' in rsrc and 'Frame(mip_width, mip_height)' in rsrc, vtf, rnode,
               'read() must size mipmap n as max(dim >> n, 1) in both dimensions', func='VTF.read', text='mip dimensions')
     # constructor frame table vs declared count
     init = vm['__init__']
-    cloop = [n for n in walk_no_nested(init) if isinstance(n, ast.For) and 'itertools.count' in ast.unparse(n.iter)]
+    cloop = [n for n in walk_no_nested(init) if isinstance(n, ast.For) and 'itertools.count' in U(n.iter)]
     if len(cloop) != 1 or not isinstance(cloop[0].target, ast.Name):
         raise AnalysisError('VTF.__init__: mipmap creation loop not found')
     lv = cloop[0].target.id
     creates_before_break = False
     seen_create = False
     for st in cloop[0].body:
-        if any(isinstance(s, ast.Subscript) and dotted(s.value) == 'self._frames' and lv in ast.unparse(s.slice) for s in ast.walk(st)):
+        if any(isinstance(s, ast.Subscript) and dotted(s.value) == 'self._frames' and lv in U(s.slice) for s in ast.walk(st)):
             seen_create = True
         if isinstance(st, ast.If) and any(isinstance(b, ast.Break) for b in st.body):
             creates_before_break = seen_create
     asg = [n for n in walk_no_nested(init) if isinstance(n, ast.Assign) and dotted(n.targets[0]) == 'self.mipmap_count']
     if len(asg) != 1:
         raise AnalysisError('VTF.__init__: mipmap_count assignment not found')
-    val = ast.unparse(asg[0].value)
+    val = U(asg[0].value)
     # the loop creates levels 0..lv inclusive when the creation precedes the break -> count is lv + 1
     want = f'{lv} + 1' if creates_before_break else lv
     ctx.check('C15.F2', val.replace(' ', '') == want.replace(' ', ''), vtf, asg[0], f'the constructor creates mipmap levels 0..{lv} (level created before the loop breaks) but declares mipmap_count = {val}: save() and read() iterate '
@@ -407,7 +408,7 @@ def run(ctx: Any, prog: Program) -> None:
     # ---- F4 --------------------------------------------------------------------------------------------------
     def offset_site(fn: ast.AST) -> Optional[ast.Assign]:
         for n in walk_no_nested(fn):
-            if isinstance(n, ast.Assign) and isinstance(n.value, ast.BinOp) and re.fullmatch(r'\(y \* self\.width \+ x\) \* 4|4 \* \(y \* self\.width \+ x\)', ast.unparse(n.value)):
+            if isinstance(n, ast.Assign) and isinstance(n.value, ast.BinOp) and re.fullmatch(r'\(y \* self\.width \+ x\) \* 4|4 \* \(y \* self\.width \+ x\)', U(n.value)):
                 return n
         return None
 
@@ -434,9 +435,9 @@ def run(ctx: Any, prog: Program) -> None:
         for var, dim in (('x', 'self.width'), ('y', 'self.height')):
             lo = bounds.get((var, 'lo'))
             hi = bounds.get((var, 'hi'))
-            ctx.check('C15.F4', lo == '0', vtf, guards[0], f'{qual} (for Frame.{mname}): `{ast.unparse(test)}` does not reject negative {var} (a negative {var} lands on another row / indexes from the end of the buffer)',
+            ctx.check('C15.F4', lo == '0', vtf, guards[0], f'{qual} (for Frame.{mname}): `{U(test)}` does not reject negative {var} (a negative {var} lands on another row / indexes from the end of the buffer)',
                       func=f'Frame.{mname}', text=f'{var} lower bound')
-            ctx.check('C15.F4', hi == f'<{dim}', vtf, guards[0], f'{qual} (for Frame.{mname}): `{ast.unparse(test)}` accepts {var} == {dim.split(".")[1]} (needs {var} < {dim}): the offset then addresses the next row or the end of the buffer',
+            ctx.check('C15.F4', hi == f'<{dim}', vtf, guards[0], f'{qual} (for Frame.{mname}): `{U(test)}` accepts {var} == {dim.split(".")[1]} (needs {var} < {dim}): the offset then addresses the next row or the end of the buffer',
                       func=f'Frame.{mname}', text=f'{var} strict upper bound')
     # ---- F5 --------------------------------------------------------------------------------------------------
     rf = fr['rescale_from']
@@ -446,13 +447,13 @@ def run(ctx: Any, prog: Program) -> None:
     else:
         cmps = [c for c in ast.walk(guard[0].test) if isinstance(c, ast.Compare)]
         loose = [c for c in cmps if not isinstance(c.ops[0], ast.Eq)]
-        sides = {re.sub(r'^2 \* ', '', ast.unparse(c.left)) for c in cmps}
+        sides = {re.sub(r'^2 \* ', '', U(c.left)) for c in cmps}
         if loose:
-            ctx.check('C15.F5', False, vtf, loose[0], f'`{ast.unparse(loose[0])}` accepts sizes that are neither equal nor exactly double: scale_down only handles factors 1 and 2 per dimension', func='Frame.rescale_from', text='size relation checked')
+            ctx.check('C15.F5', False, vtf, loose[0], f'`{U(loose[0])}` accepts sizes that are neither equal nor exactly double: scale_down only handles factors 1 and 2 per dimension', func='Frame.rescale_from', text='size relation checked')
         else:
             ctx.shape('C15.F5', sides == {'self.width', 'self.height'} and len(cmps) == 4, vtf, guard[0], 'equal-or-double test per dimension', func='Frame.rescale_from', text='size relation checked')
     sd = py.func('scale_down')
-    ssrc = ast.unparse(sd)
+    ssrc = U(sd)
     terms = ['src[off2 + channel]', 'src[off2 + channel + horiz_off]', 'src[off2 + channel + vert_off]', 'src[off2 + channel + vert_off + horiz_off]']
 
     def mean_terms(fn_body_src: ast.AST) -> Optional[Tuple[List[str], Any]]:
@@ -465,7 +466,7 @@ def run(ctx: Any, prog: Program) -> None:
                         adds(e.left)
                         adds(e.right)
                     else:
-                        ts.append(ast.unparse(e))
+                        ts.append(U(e))
                 adds(n.left)
                 if len(ts) >= 2 and all(t.startswith('src[') for t in ts):
                     return ts, n.right.value if isinstance(n.op, ast.FloorDiv) else 2 ** n.right.value
@@ -502,8 +503,8 @@ def run(ctx: Any, prog: Program) -> None:
                 ctx.shape('C15.F5', False, vtf, cm, f'the loop binding `{lvl}` was not found', func='VTF.compute_mipmaps', text='mipmap chain')
             else:
                 it = loops[0].iter
-                its = ast.unparse(it)
-                ascending = isinstance(it, ast.Call) and dotted(it.func) == 'range' and len(it.args) >= 1 and not (len(it.args) == 3) and ast.unparse(it.args[0]) in ('1', '0')
+                its = U(it)
+                ascending = isinstance(it, ast.Call) and dotted(it.func) == 'range' and len(it.args) >= 1 and not (len(it.args) == 3) and U(it.args[0]) in ('1', '0')
                 sorted_table = isinstance(it, ast.Call) and dotted(it.func) == 'sorted' and 'self._frames' in its and not any(k.arg == 'reverse' for k in it.keywords)
                 table_order = 'self._frames' in its and not sorted_table
                 if ascending or sorted_table:
@@ -525,7 +526,7 @@ def run(ctx: Any, prog: Program) -> None:
         re_assigns = [a for a in ast.walk(rd_) if isinstance(a, ast.Assign) and a is not id_unpacks[0] and any(isinstance(t, ast.Name) and t.id == idv for t in a.targets)
                       and a.lineno > id_unpacks[0].lineno and any(isinstance(x, ast.Name) and x.id == idv for x in ast.walk(a.value))]
         bad = [a for a in re_assigns if not (isinstance(a.value, ast.Call) and dotted(a.value.func) == 'ResourceID')]
-        ctx.check('C15.F1', not bad, vtf, bad[0] if bad else id_unpacks[0], (f'VTF.read rewrites the resource id it read (`{ast.unparse(bad[0])[:60]}`) before using it as key: save() packs custom ids verbatim with `3s`, so an id that '
+        ctx.check('C15.F1', not bad, vtf, bad[0] if bad else id_unpacks[0], (f'VTF.read rewrites the resource id it read (`{U(bad[0])[:60]}`) before using it as key: save() packs custom ids verbatim with `3s`, so an id that '
                   'legitimately ends in a NUL byte (b"AB\\0") comes back under a different key') if bad else 'id used as read / as ResourceID member', func='VTF.read', text='resource id stored as read')
     # ---- F6 --------------------------------------------------------------------------------------------------
     sm = vtf.methods('SheetSequence')
@@ -542,8 +543,8 @@ def run(ctx: Any, prog: Program) -> None:
                     link = {'version': 'version', 'sequence_count': 'len(sequences)', 'seq_num': 'seq_num', 'clamp': 'seq.clamp', 'frame_count': 'len(seq.frames)', 'total_time': 'seq.duration', 'duration': 'duration'}
                     if rn in link:
                         ctx.check('C15.F6', link[rn] == wn, vtf, b.node, f'sheet v{ver}: read() takes `{rn}` where make_data packs `{wn}`', func='SheetSequence.make_data', text=f'sheet v{ver} field {rn}')
-    fsrc, msrc = ast.unparse(fr_), ast.unparse(mk)
-    ver_if = [n for n in ast.walk(fr_) if isinstance(n, ast.If) and ast.unparse(n.test) == 'version == 0']
+    fsrc, msrc = U(fr_), U(mk)
+    ver_if = [n for n in ast.walk(fr_) if isinstance(n, ast.If) and U(n.test) == 'version == 0']
     if len(ver_if) != 1:
         ctx.shape('C15.F6', False, vtf, fr_, 'version dispatch of the coordinate blocks not found', func='SheetSequence.from_resource', text='coordinate block sizes')
     else:
@@ -561,7 +562,7 @@ def run(ctx: Any, prog: Program) -> None:
     tc = vtf.methods('TexCoord')
     fields = [st.target.id for st in vtf.cls('TexCoord').body if isinstance(st, ast.AnnAssign) and isinstance(st.target, ast.Name)]
     packs = [c for c in ast.walk(tc['to_binary']) if isinstance(c, ast.Call) and dotted(c.func) == 'struct.pack']
-    positional = "cls(*data)" in ast.unparse(tc['from_binary']) or "cls(*struct.unpack_from" in ast.unparse(tc['from_binary'])
+    positional = "cls(*data)" in U(tc['from_binary']) or "cls(*struct.unpack_from" in U(tc['from_binary'])
     if len(packs) != 1 or not positional:
         ctx.shape('C15.F6', False, vtf, tc['to_binary'], 'TexCoord pack / positional construction not found', func='TexCoord.to_binary', text='TexCoord field order')
     else:
@@ -622,7 +623,7 @@ def accepted_region(test: ast.AST) -> Dict[Tuple[str, str], str]:
         elif isinstance(t, ast.UnaryOp) and isinstance(t.op, ast.Not):
             walk_accept(t.operand)
         else:
-            raise AnalysisError(f'bounds guard `{ast.unparse(t)}` is not an enumerated idiom')
+            raise AnalysisError(f'bounds guard `{U(t)}` is not an enumerated idiom')
 
     def walk_accept(t: ast.AST) -> None:
         if isinstance(t, ast.BoolOp) and isinstance(t.op, ast.And):
@@ -631,10 +632,10 @@ def accepted_region(test: ast.AST) -> Dict[Tuple[str, str], str]:
         elif isinstance(t, ast.Compare):
             accept(t)
         else:
-            raise AnalysisError(f'bounds guard `{ast.unparse(t)}` is not an enumerated idiom')
+            raise AnalysisError(f'bounds guard `{U(t)}` is not an enumerated idiom')
     walk_reject(test)
     # `0 <= off < 4 * W * H` (off = (y*W + x)*4): together with 0 <= x < W this bounds y; on its own it bounds neither
-    src = ast.unparse(test)
+    src = U(test)
     if re.search(r'0 <= off < (4 \* self\.width \* self\.height|len\(self\._data\))', src) and out.get(('x', 'lo')) == '0' and out.get(('x', 'hi')) == '<self.width':
         out.setdefault(('y', 'lo'), '0')
         out.setdefault(('y', 'hi'), '<self.height')
